@@ -57,6 +57,21 @@ def strip_lean_comments(src: str) -> str:
     return "".join(out)
 
 
+def import_closure(mod: str) -> list[str]:
+    """relative paths of the project's own source files that `mod` imports, transitively"""
+    seen, todo = [], [mod]
+    while todo:
+        m = todo.pop()
+        rel = m.replace(".", "/") + ".lean"
+        if rel in seen or not os.path.exists(os.path.join(LEAN, rel)):
+            continue
+        seen.append(rel)
+        for imp in re.findall(r"^\s*(?:public\s+)?import\s+([A-Za-z0-9_.]+)", open(os.path.join(LEAN, rel)).read(), re.M):
+            if imp.startswith("TucanModel") or imp.startswith("TucanProofs"):
+                todo.append(imp)
+    return sorted(seen)
+
+
 def prepare_lean(prop: str) -> dict:
     """Regenerate tables, build driver and this property's proof module, audit axioms.
     Returns a status dict; never raises for a failing build."""
@@ -85,14 +100,12 @@ def prepare_lean(prop: str) -> dict:
         code = strip_lean_comments(src)
         st["theorems"] = re.findall(r"^theorem\s+([A-Za-z0-9_.']+)", code, re.M)
         st["examples"] = len(re.findall(r"^example\b", code, re.M))
-        # forbidden constructs anywhere in the library sources
-        for root in ("TucanModel", "TucanProofs"):
-            for dp, _, fs in os.walk(os.path.join(LEAN, root)):
-                for fn in fs:
-                    if fn.endswith(".lean"):
-                        c = strip_lean_comments(open(os.path.join(dp, fn)).read())
-                        for m in FORBIDDEN.finditer(c):
-                            st["forbidden"].append(f"{os.path.relpath(os.path.join(dp, fn), LEAN)}: {m.group(0).strip()}")
+        # forbidden constructs in every source file this property's module (transitively) imports
+        for rel in import_closure(mod):
+            c = strip_lean_comments(open(os.path.join(LEAN, rel)).read())
+            for m in FORBIDDEN.finditer(c):
+                st["forbidden"].append(f"{rel}: {m.group(0).strip()}")
+        st["modules"] = len(import_closure(mod))
         if st["proofs_ok"] and st["theorems"]:
             audit = os.path.join(LEAN, ".lake", f"audit_{prop}.lean")
             with open(audit, "w") as f:
